@@ -23,8 +23,6 @@ Inductive out :=
 | OutBool (b : bool)
 | OutItems (l : list (str * val)).
 
-Definition DEPTH : nat := 40.  (* fuel for traversals of values: nesting depth of any generated value is far below *)
-
 Section WithClash.
 Variable clash : list str.
 
@@ -86,13 +84,13 @@ Definition step_model (root : alist) (o : op) : out * alist * bool :=
               else match ns_setitem clash key (snd kv) r with
                    | Ok r' => (r', false, md')
                    | Fail => (r, true, md')
-                   end) (ns_items DEPTH false sd) (root, false, false) in
+                   end) (ns_items false sd) (root, false, false) in
           (if failed then OutFail else OutUnit, r, md)
       | _ => (OutFail, root, false)
       end
   | OClone => (OutBool true, root, false)
-  | OItems br => (OutItems (ns_items DEPTH br root), root, false)
-  | OAsDict => (OutVal (VDict (ns_as_dict DEPTH root)), root, false)
+  | OItems br => (OutItems (ns_items br root), root, false)
+  | OAsDict => (OutVal (ns_as_dict root), root, false)
   | OInitDict d =>
       match d with
       | VDict dd =>
